@@ -86,6 +86,18 @@ func wireConst(p *Program, name string) (int64, bool) {
 }
 
 func checkC09(p *Program, r *Report) {
+	// round 7 (C09-agent7-m2): "no false negatives" needs the read-modify-write of a bit to be exclusive: the lock
+	// discipline of bloom.Filter (C20) is a necessary condition here too
+	defer func() {
+		r.Borrow("C20", func(o *Ob) (string, bool) {
+			switch o.Rule {
+			case "C20.guarded", "C20.required", "C20.section":
+				return "C09.locked", true
+			}
+			return "", false
+		})
+		r.Floor("C09.locked", 10)
+	}()
 	{
 		ef := NewEffects(p)
 		sharedStateRule(p, r, ef, "C09.shared", []string{"bloom/filter.go", "bloom/murmurhash3.go"})
